@@ -21,6 +21,7 @@ import (
 	"os"
 	"os/exec"
 	"path/filepath"
+	"sort"
 	"strings"
 )
 
@@ -41,6 +42,7 @@ func main() {
 	var shapes, objects, vias, devirts, packeds, splits multiFlag
 	chans := flag.Bool("chan", false, "channel values are opaque handles (Z); make(chan T), close(c), <-c become calls of the parameters chan_make, chan_close, chan_recv")
 	flag.Var(&packeds, "packed", "S: values of the struct S are opaque handles (Z) built by the pure parameter S_mk and read by the pure parameters S_<field>")
+	splitSame := flag.String("split-same", "", "FILE: the committed snapshot the --split file must agree with (same records and functions, in any order); otherwise exit 1")
 	flag.Var(&splits, "split", "PKGDIR=FILE: the records and functions of the package PKGDIR go to FILE (next to --out), which the main file imports")
 	flag.Var(&vias, "via", "S.f: the field f of the struct S points to a struct translated by value of which there is one instance; it is left out of the record, the methods of S take (and, when they modify it, return) that instance as an explicit parameter")
 	flag.Var(&devirts, "devirt", "I=S: values of the interface type I are pointers to the struct S; their method calls are calls of the methods of S")
@@ -75,6 +77,16 @@ func main() {
 	for _, sp := range splits {
 		f := sp[strings.Index(sp, "=")+1:]
 		if txt, ok := extraFiles[f]; ok {
+			if *splitSame != "" {
+				// the ties over the split part were checked against this snapshot: the part
+				// generated now must consist of the same definitions
+				snap, err := os.ReadFile(*splitSame)
+				if err != nil || !sameBlocks(string(snap), txt) {
+					os.Remove(*out)
+					fmt.Fprintln(os.Stderr, "go2coq: the part generated for "+f+" differs from the snapshot "+*splitSame+" its ties were checked against (treated as outside the subset)")
+					os.Exit(1)
+				}
+			}
 			if err := os.WriteFile(filepath.Join(filepath.Dir(*out), f), []byte(txt), 0o644); err != nil {
 				fmt.Fprintln(os.Stderr, "go2coq:", err)
 				os.Exit(1)
@@ -111,4 +123,21 @@ func main() {
 			os.Exit(1)
 		}
 	}
+}
+
+// sameBlocks: two generated files consist of the same records and functions
+// (blocks separated by blank lines, after the header), in any order
+func sameBlocks(a, b string) bool {
+	norm := func(t string) string {
+		if i := strings.Index(t, "\nModule Gen.\n"); i >= 0 {
+			t = t[i:]
+		}
+		bl := strings.Split(t, "\n\n")
+		for i := range bl {
+			bl[i] = strings.TrimSpace(bl[i])
+		}
+		sort.Strings(bl)
+		return strings.Join(bl, "\n\n")
+	}
+	return norm(a) == norm(b)
 }
